@@ -242,27 +242,30 @@ def gen_value(ct, rnd, depth=0):
         lo, hi = BOUNDS[c]
         return rnd.choice([lo, hi, 0 if lo <= 0 else lo, rnd.randint(lo, hi)])
     if c == 'd':
-        return rnd.choice([0.0, -1.5, 1e300, float('inf'), 3.141592653589793])
+        return rnd.choice([0.0, -1.5, 1e300, float('inf'), float('-inf'), float('nan'), 5e-324, 3.141592653589793])
     if c == 's':
-        return rnd.choice(['', 'a', 'héllo', '世界', 'x' * rnd.randrange(0, 9)])
+        return rnd.choice(['', 'a', 'héllo', '世界', '\U0001F600', 'x' * rnd.randrange(0, 9), 'y' * rnd.choice([254, 255, 256, 257]) if depth == 0 and rnd.random() < 0.2 else 'z'])
     if c == 'o':
-        return rnd.choice(['/', '/a', '/a/b_c', '/org/freedesktop/DBus'])
+        return rnd.choice(['/', '/a', '/a/b_c', '/org/freedesktop/DBus', '/_/0/A9'])
     if c == 'g':
-        return rnd.choice(['', 'i', 'a{sv}', '(ii)s'])
+        return rnd.choice(['', 'i', 'a{sv}', '(ii)s', 'a' * 31 + 'y', 'i' * 255 if depth == 0 else 'ii'])
     if c == 'a':
         et = ct[1:]
-        n = rnd.choice([0, 0, 1, 2, 3])
+        n = rnd.choice([0, 0, 1, 2, 3, 3, 17 if depth == 0 else 2])
         if et[0] == '{':
             kt, vt = et[1], et[2:-1]
             d = {}
             for _ in range(n):
-                d[gen_value(kt, rnd, depth + 1)] = gen_value(vt, rnd, depth + 1)
+                k = gen_value(kt, rnd, depth + 1)
+                if isinstance(k, float) and k != k:
+                    k = 2.5                  # NaN keys cannot be looked up again: not a conforming dict
+                d[k] = gen_value(vt, rnd, depth + 1)
             return d
         return [gen_value(et, rnd, depth + 1) for _ in range(n)]
     if c == '(':
         return [gen_value(t, rnd, depth + 1) for t in split(ct[1:-1])]
     if c == 'v':
-        sg = rnd.choice(['i', 's', 'y', 'b', 'd', 'as', '(is)', 'a{sv}', 'x', 't', 'ai'] if depth < 2 else ['i', 's'])
+        sg = rnd.choice(['i', 's', 'y', 'b', 'd', 'as', '(is)', 'a{sv}', 'x', 't', 'ai', 'n', 'q', 'u', 'o', 'g', '(yx)', 'aay', 'a(yv)', 'ad'] if depth < 2 else ['i', 's', 'x'])
         return Variant(sg, gen_value(sg, rnd, depth + 1))
     raise ValueError(ct)
 
